@@ -14,6 +14,10 @@
  *                per failure.  Independent of the Lean model.
  * stdout: one JSON line of statistics.
  *
+ * rs_calloc exists in two variants (pinned: unchecked nmemb*size; after repo_patches/rs_calloc_overflow.diff: overflow
+ * -> NULL/ENOMEM).  The harness detects the variant by behaviour (detect_calloc_variant) and passes it to the model
+ * as the 5th argument of `cfg`; the oracle line CALLOC-OVERFLOW appears only when a wrapped request is SERVED.
+ *
  * Built twice: real arena (T=16, B=6) and -DVERIF_B_TOTAL_EXP=8 -DVERIF_B_BLOCK_EXP=4 (256-byte arena).
  */
 #include "vcommon.h"
@@ -461,8 +465,29 @@ static int accept_block(void *p, uint64_t n)
 
 static bool lp_live;
 
+/* Which rs_calloc does the tree under test have?  Detected by behaviour, once, on a scratch LP state:
+ * rs_calloc(2^63 + 8, 2) asks for 2^64 + 16 bytes; the pinned code wraps the product to 16 and returns a block,
+ * the code after repo_patches/rs_calloc_overflow.diff returns NULL with ENOMEM.  The answer goes to the model as
+ * the last token of every `cfg` line. */
+static int calloc_checked = -1;
+static void detect_calloc_variant(void)
+{
+	memset(&the_lp, 0, sizeof(the_lp));
+	current_lp = &the_lp;
+	model_allocator_lp_init(&MM);
+	errno = 0;
+	void *p = rs_calloc(((size_t)1 << 63) | 8, 2);
+	calloc_checked = p == NULL && errno == ENOMEM;
+	if(p)
+		rs_free(p);
+	errno = 0;
+	model_allocator_lp_fini(&MM);
+}
+
 static void op_cfg(void)
 {
+	if(calloc_checked < 0)
+		detect_calloc_variant();
 	if(lp_live)
 		model_allocator_lp_fini(&MM);
 	shadow_clear(&sh);
@@ -477,7 +502,8 @@ static void op_cfg(void)
 	hist_mid_ins = hist_unsafe = false;
 	op_idx = 0;
 	n_pre = 0;
-	sprintf(opline, "cfg %u %u %llu %llu", (unsigned)T, (unsigned)B, (unsigned long long)PER_ARENA, (unsigned long long)BASE);
+	sprintf(opline, "cfg %u %u %llu %llu %d", (unsigned)T, (unsigned)B, (unsigned long long)PER_ARENA,
+	    (unsigned long long)BASE, calloc_checked);
 	finish_op(K_CFG, "ok", "");
 }
 
@@ -506,8 +532,9 @@ static void op_calloc(uint64_t nmemb, uint64_t size)
 	pre_op();
 	void *p = rs_calloc(nmemb, size);
 	sprintf(opline, "calloc %llu %llu %u %u", (unsigned long long)nmemb, (unsigned long long)size, new_arena_index(), seed);
-	/* an implementation that refuses an overflowing product with ENOMEM is right, too */
-	enum expect x = overflow && !p && errno == ENOMEM ? X_ENOMEM : expect_alloc(tot);
+	/* the overflow-checked variant must refuse an overflowing product with ENOMEM; the pinned one serves the
+	 * wrapped product (reported below) */
+	enum expect x = overflow && calloc_checked ? X_ENOMEM : expect_alloc(tot);
 	const char *res = alloc_result(K_CALLOC, p, x, buf);
 	if(p && overflow && n_calloc_overflow++ < 3) { /* C12: a successful allocation is at least as big as requested */
 		fprintf(f_or, "CALLOC-OVERFLOW hist=%lu op=%lu nmemb=%llu size=%llu wrapped_product=%llu line=%s\n", n_hist, op_idx,
@@ -1017,7 +1044,7 @@ int main(int argc, char **argv)
 	for(unsigned i = 0; i < N_DUMMY; ++i)
 		free(dummy[i]);
 
-	printf("{\"T\":%u,\"B\":%u,\"mix\":\"%s\",\"histories\":%lu,\"exhaustive_sequences\":%lu,", (unsigned)T, (unsigned)B, mix,
+	printf("{\"T\":%u,\"B\":%u,\"calloc_overflow_checked\":%d,\"mix\":\"%s\",\"histories\":%lu,\"exhaustive_sequences\":%lu,", (unsigned)T, (unsigned)B, calloc_checked, mix,
 	    n_hist, n_exh_seq);
 	unsigned long total = 0;
 	printf("\"ops\":{");
